@@ -12,3 +12,26 @@ Theorem C10_unsupported : forall data pos e, stream_next data pos = Ok (SFile e)
   f_encrypted (se_file e) = false /\ f_dd (se_file e) = false /\ is_unsupported (f_method (se_file e)) = false.
 Proof. exact stream_next_supported. Qed.
 Print Assumptions C10_unsupported.
+
+(* ---------- agreement with the seekable reader on archives of stored entries written by the writer.
+   For the program  (start_file n_i o_i; write_all c_i)*; finish  of C01_stored_roundtrip (any number of stored entries,
+   any names / options / contents, any compressor and 32-bit checksum function), the streaming reader model walks
+   the finished bytes from offset 0, produces one entry per written entry, in order, with raw name n_i, method
+   Stored, CRC crc(c_i), sizes |c_i| and raw payload exactly c_i, and stops on the first central directory
+   signature (where visit() picks up the metadata).  C01_stored_roundtrip states the same names and contents for the
+   seekable reader on the same bytes: both readers agree, entry by entry, because both equal what was written. *)
+From Coq Require Import ZArith.
+From ZipV Require Import Gen.CompressionGen Gen.SpecGen Model.Writer Proofs.WriterEntry Proofs.StreamRendered Proofs.StoredRoundtrip.
+Theorem C10_stream_sees_what_was_written : forall (kdf : bytes -> bytes -> N -> bytes) (blk mac : bytes -> bytes -> bytes) enc crc,
+  (forall x, crc x < 2 ^ 32) ->
+  forall n1 o1 c1 rest,
+  let es := (n1, o1, c1) :: rest in
+  Forall entry_ok es -> layout_len es + N.of_nat (length es) * 131218 < 2 ^ 64 ->
+  exists s' s3 data (raws : list raw) ents p,
+    write_entries enc crc (new_writer []) es = (s', Ok tt) /\
+    finish enc crc s' = (s3, Ok data) /\
+    stream_entries (S (length data)) data 0 = (ents, Ok p) /\
+    Forall2 (raw_seen crc data) raws ents /\
+    map (fun r : raw => (w_name (fst (fst r)), snd r)) raws = map (fun e : entry => (fst (fst e), snd e)) es.
+Proof. exact stored_stream_roundtrip. Qed.
+Print Assumptions C10_stream_sees_what_was_written.
